@@ -762,7 +762,12 @@ func (c *CqlServerConnection) Receive() (*frame.Frame, error) {
 	}
 	log.Debug().Msgf("%v: waiting for incoming frame", c)
 	verifPoint("server.receive.beforeRecv")
-	if incoming, ok := <-c.incoming; !ok {
+	// read the field once: Close sets it to nil before closing the channel, and receiving from a nil channel blocks forever
+	incomingChannel := c.incoming
+	if incomingChannel == nil {
+		return nil, fmt.Errorf("%v: connection closed", c)
+	}
+	if incoming, ok := <-incomingChannel; !ok {
 		if c.IsClosed() {
 			return nil, fmt.Errorf("%v: connection closed", c)
 		} else {
